@@ -62,6 +62,8 @@ enum ClassAtom {
 struct ClassSet {
     codepoints: CodePointSet,
     alternatives: ClassSetAlternativeStrings,
+    /// The static semantics MayContainStrings of the expression parsed so far.
+    may_contain_strings: bool,
 }
 
 impl ClassSet {
@@ -69,6 +71,7 @@ impl ClassSet {
         ClassSet {
             codepoints: CodePointSet::new(),
             alternatives: ClassSetAlternativeStrings::new(),
+            may_contain_strings: false,
         }
     }
 
@@ -101,6 +104,7 @@ impl ClassSet {
     }
 
     fn union_operand(&mut self, operand: ClassSetOperand) {
+        self.may_contain_strings |= operand.may_contain_strings();
         match operand {
             ClassSetOperand::ClassSetCharacter(c) => {
                 self.codepoints.add_one(c);
@@ -113,12 +117,20 @@ impl ClassSet {
                 self.alternatives.extend(class.alternatives);
             }
             ClassSetOperand::ClassStringDisjunction(s) => {
-                self.alternatives.extend(s);
+                // A string of one code point is a member like any other code point.
+                for alternative in s {
+                    if alternative.len() == 1 {
+                        self.codepoints.add_one(alternative[0]);
+                    } else {
+                        self.alternatives.0.push(alternative);
+                    }
+                }
             }
         }
     }
 
     fn intersect_operand(&mut self, operand: ClassSetOperand) {
+        self.may_contain_strings &= operand.may_contain_strings();
         match operand {
             ClassSetOperand::ClassSetCharacter(c) => {
                 if self.codepoints.contains(c) {
@@ -238,6 +250,17 @@ enum ClassSetOperand {
     CharacterClassEscape(CodePointSet),
     Class(ClassSet),
     ClassStringDisjunction(ClassSetAlternativeStrings),
+}
+
+impl ClassSetOperand {
+    /// The static semantics MayContainStrings of an operand.
+    fn may_contain_strings(&self) -> bool {
+        match self {
+            ClassSetOperand::ClassSetCharacter(_) | ClassSetOperand::CharacterClassEscape(_) => false,
+            ClassSetOperand::Class(class) => class.may_contain_strings,
+            ClassSetOperand::ClassStringDisjunction(s) => s.0.iter().any(|s| s.len() != 1),
+        }
+    }
 }
 
 /// A list of strings matching some property, for use in 'v' regular expressions.
@@ -1036,8 +1059,26 @@ where
     }
 
     // CharacterClass :: ClassContents :: ClassSetExpression
-    // `in_negated_class` forbids string operands. It does not invert the result.
+    // `in_negated_class` forbids contents that may contain strings. It does not invert the result.
     fn consume_class_set_expression(&mut self, in_negated_class: bool) -> Result<ClassSet, Error> {
+        let mut result = self.consume_class_set_contents()?;
+        // CharacterClass :: [^ ClassContents ] and NestedClass :: [^ ClassContents ]:
+        // it is a Syntax Error if MayContainStrings of the ClassContents is true.
+        if in_negated_class && result.may_contain_strings {
+            return error("Negated character class may contain strings");
+        }
+        if in_negated_class {
+            // Whatever strings are left have a single code point; complement them with the rest.
+            for alternative in mem::take(&mut result.alternatives.0) {
+                if let [cp] = *alternative {
+                    result.codepoints.add_one(cp);
+                }
+            }
+        }
+        Ok(result)
+    }
+
+    fn consume_class_set_contents(&mut self) -> Result<ClassSet, Error> {
         let mut result = ClassSet::new();
 
         let first = match self.peek() {
@@ -1045,7 +1086,7 @@ where
                 self.consume(']');
                 return Ok(result);
             }
-            Some(_) => self.consume_class_set_operand(in_negated_class)?,
+            Some(_) => self.consume_class_set_operand()?,
             None => {
                 return error("Unbalanced class set bracket");
             }
@@ -1086,7 +1127,7 @@ where
                     match first {
                         ClassSetOperand::ClassSetCharacter(first) => {
                             let ClassSetOperand::ClassSetCharacter(last) =
-                                self.consume_class_set_operand(in_negated_class)?
+                                self.consume_class_set_operand()?
                             else {
                                 return error("Invalid class set range");
                             };
@@ -1119,7 +1160,7 @@ where
                             self.consume(']');
                             return Ok(result);
                         }
-                        Some(_) => self.consume_class_set_operand(in_negated_class)?,
+                        Some(_) => self.consume_class_set_operand()?,
                         None => return error("Unbalanced class set bracket"),
                     };
                     if self.peek() == Some(0x2D /* - */) {
@@ -1127,7 +1168,7 @@ where
                         match operand {
                             ClassSetOperand::ClassSetCharacter(first) => {
                                 let ClassSetOperand::ClassSetCharacter(last) =
-                                    self.consume_class_set_operand(in_negated_class)?
+                                    self.consume_class_set_operand()?
                                 else {
                                     return error("Invalid class set range");
                                 };
@@ -1148,7 +1189,7 @@ where
             // ClassIntersection :: ClassSetOperand && [lookahead ≠ &]
             ClassSetOperator::Intersection => {
                 loop {
-                    let operand = self.consume_class_set_operand(in_negated_class)?;
+                    let operand = self.consume_class_set_operand()?;
                     result.intersect_operand(operand);
                     match self.next() {
                         Some(0x5D /* ] */) => return Ok(result),
@@ -1164,7 +1205,7 @@ where
             // ClassSubtraction :: ClassSubtraction -- ClassSetOperand
             ClassSetOperator::Subtraction => {
                 loop {
-                    let operand = self.consume_class_set_operand(in_negated_class)?;
+                    let operand = self.consume_class_set_operand()?;
                     result.subtract_operand(operand);
                     match self.next() {
                         Some(0x5D /* ] */) => return Ok(result),
@@ -1180,10 +1221,7 @@ where
         }
     }
 
-    fn consume_class_set_operand(
-        &mut self,
-        in_negated_class: bool,
-    ) -> Result<ClassSetOperand, Error> {
+    fn consume_class_set_operand(&mut self) -> Result<ClassSetOperand, Error> {
         use ClassSetOperand::*;
         let Some(cp) = self.peek() else {
             return error("Empty class set operand");
@@ -1285,7 +1323,6 @@ where
                                     intervals.to_vec(),
                                 )))
                             }
-                            PropertyEscapeKind::StringSet(_) if in_negated_class => error("Invalid character escape"),
                             PropertyEscapeKind::StringSet(strings) => {
                                 Ok(ClassStringDisjunction(ClassSetAlternativeStrings(strings.iter().map(|s| Box::from(*s)).collect())))
                             }
